@@ -8,7 +8,6 @@ import (
 	"github.com/internetarchive/Zeno/internal/verifrt"
 	"github.com/internetarchive/Zeno/pkg/models"
 	"golang.org/x/net/html"
-	"golang.org/x/net/html/atom"
 )
 
 type c07El struct {
@@ -17,7 +16,8 @@ type c07El struct {
 }
 
 func c07Node(tag string, attrs [][2]string) *html.Node {
-	n := &html.Node{Type: html.ElementNode, Data: tag, DataAtom: atom.Lookup([]byte(tag))}
+	// (DataAtom stays 0, as for an element the parser does not know: goquery/cascadia match on Data)
+	n := &html.Node{Type: html.ElementNode, Data: tag}
 	for _, a := range attrs {
 		n.Attr = append(n.Attr, html.Attribute{Key: a[0], Val: a[1]})
 	}
@@ -36,70 +36,21 @@ func c07Render(els []c07El) string {
 	return s + "</body></html>"
 }
 
-// VerifH_C07_attributes: every URL in a standard embedding attribute of the page comes back as an asset (resolved
-// against the page URL), unless its tag is disabled; anchors come back as outlinks. The DOM is built directly (symbolic
-// run) or rendered and parsed by the real HTML parser (native replay); goquery/cascadia run their real code on it.
-func VerifH_C07_attributes() {
-	cfg := &config.Config{}
-	disabled := []string{"", "img", "script", "link"}[verifrt.Choice("disable-html-tag", 4)]
-	if disabled != "" {
-		cfg.DisableHTMLTag = []string{disabled}
+// c07Disabled: the --disable-html-tag setting: nothing, one tag, or two tags.
+var c07Disabled = [][]string{nil, {"img"}, {"script"}, {"link"}, {"video"}, {"audio"}, {"source"}, {"a"}, {"img", "audio"}, {"video", "source"}}
+
+func c07In(list []string, s string) bool {
+	for _, x := range list {
+		if x == s {
+			return true
+		}
 	}
-	cfg.CaptureAlternatePages = verifrt.Choice("capture-alternate", 2) == 1
-	config.VerifSet(cfg)
+	return false
+}
+
+// c07Check runs the real extractors on the page made of els and checks them against the attribute table.
+func c07Check(cfg *config.Config, disabled []string, els []c07El, wantAssets []string, wantOut string) {
 	page := "http://site.example/dir/page"
-	var els []c07El
-	var wantAssets []string
-	want := func(tag, u string) {
-		if tag != disabled {
-			wantAssets = append(wantAssets, u)
-		}
-	}
-	switch verifrt.Choice("img", 4) {
-	case 1:
-		els = append(els, c07El{"img", [][2]string{{"src", "http://cdn.example/i.png"}}})
-		want("img", "http://cdn.example/i.png")
-	case 2:
-		els = append(els, c07El{"img", [][2]string{{"src", "/rel/i.png"}}})
-		want("img", "/rel/i.png") // assets are handed on as written; the preprocessor resolves them against the page (C05/C09)
-	case 3:
-		els = append(els, c07El{"img", [][2]string{{"srcset", "http://cdn.example/a.png 1x, http://cdn.example/b.png 2x"}}})
-		want("img", "http://cdn.example/a.png")
-		want("img", "http://cdn.example/b.png")
-		verifrt.Cover("srcset")
-	}
-	if verifrt.Choice("script", 2) == 1 {
-		els = append(els, c07El{"script", [][2]string{{"src", "js/app.js"}}})
-		want("script", "js/app.js")
-		verifrt.Cover("relative-script")
-	}
-	switch verifrt.Choice("link", 3) {
-	case 1:
-		els = append(els, c07El{"link", [][2]string{{"rel", "stylesheet"}, {"href", "http://cdn.example/s.css"}}})
-		want("link", "http://cdn.example/s.css")
-	case 2:
-		els = append(els, c07El{"link", [][2]string{{"rel", "alternate"}, {"href", "http://site.example/feed.xml"}}})
-		if cfg.CaptureAlternatePages {
-			want("link", "http://site.example/feed.xml")
-		}
-		verifrt.Cover("alternate")
-	}
-	switch verifrt.Choice("media", 4) {
-	case 1:
-		els = append(els, c07El{"video", [][2]string{{"src", "http://cdn.example/v.mp4"}}})
-		want("video", "http://cdn.example/v.mp4")
-	case 2:
-		els = append(els, c07El{"audio", [][2]string{{"src", "http://cdn.example/s.mp3"}}})
-		want("audio", "http://cdn.example/s.mp3")
-	case 3:
-		els = append(els, c07El{"source", [][2]string{{"src", "http://cdn.example/t.webm"}}})
-		want("source", "http://cdn.example/t.webm")
-	}
-	wantOut := ""
-	if verifrt.Choice("anchor", 2) == 1 {
-		els = append(els, c07El{"a", [][2]string{{"href", "../next.html"}}})
-		wantOut = "http://site.example/next.html"
-	}
 	u := &models.URL{Raw: page}
 	if err := u.Parse(); err != nil {
 		panic(err)
@@ -132,13 +83,15 @@ func VerifH_C07_attributes() {
 		verifrt.Cover("asset-expected")
 		verifrt.Assert(has(assets, w), "C07 every URL in a standard embedding attribute becomes an asset")
 	}
-	if disabled != "" {
+	if len(disabled) > 0 {
 		verifrt.Cover("tag-disabled")
 		for _, a := range assets {
 			for _, e := range els {
-				if e.tag == disabled {
+				if c07In(disabled, e.tag) {
 					for _, at := range e.attrs {
-						verifrt.Assert(a.Raw != at[1], "C07 a disabled tag yields no asset")
+						if at[0] == "src" || at[0] == "href" {
+							verifrt.Assert(a.Raw != at[1], "C07 a disabled tag yields no asset")
+						}
 					}
 				}
 			}
@@ -147,7 +100,107 @@ func VerifH_C07_attributes() {
 	outlinks, err := HTMLOutlinks(item)
 	verifrt.Assert(err == nil, "C07 a parsed page yields its outlinks")
 	if wantOut != "" {
-		verifrt.Cover("anchor")
-		verifrt.Assert(has(outlinks, wantOut), "C07 anchor targets are outlinks, resolved against the page")
+		if !c07In(disabled, "a") {
+			verifrt.Cover("anchor")
+			verifrt.Assert(has(outlinks, wantOut), "C07 anchor targets are outlinks, resolved against the page")
+		} else {
+			verifrt.Cover("anchor-disabled")
+			verifrt.Assert(!has(outlinks, wantOut), "C07 a disabled tag yields no outlink")
+		}
 	}
+}
+
+// VerifH_C07_attributes: every URL in a standard embedding attribute of the page comes back as an asset (handed on as
+// written; the preprocessor resolves it, C05/C09), unless its tag is disabled; anchors come back as outlinks. The DOM is
+// built directly (symbolic run) or rendered and parsed by the real HTML parser (native replay); goquery/cascadia run
+// their real code on it.
+func VerifH_C07_attributes() {
+	cfg := &config.Config{}
+	disabled := c07Disabled[verifrt.Choice("disable-html-tag", len(c07Disabled))]
+	cfg.DisableHTMLTag = disabled
+	cfg.CaptureAlternatePages = verifrt.Choice("capture-alternate", 2) == 1
+	config.VerifSet(cfg)
+	var els []c07El
+	var wantAssets []string
+	want := func(tag, u string) {
+		if !c07In(disabled, tag) {
+			wantAssets = append(wantAssets, u)
+		}
+	}
+	switch verifrt.Choice("img", 4) {
+	case 1:
+		els = append(els, c07El{"img", [][2]string{{"src", "http://cdn.example/i.png"}}})
+		want("img", "http://cdn.example/i.png")
+	case 2:
+		els = append(els, c07El{"img", [][2]string{{"src", "/rel/i.png"}}})
+		want("img", "/rel/i.png")
+	case 3:
+		els = append(els, c07El{"img", [][2]string{{"srcset", "http://cdn.example/a.png 1x, http://cdn.example/b.png 2x"}}})
+		want("img", "http://cdn.example/a.png")
+		want("img", "http://cdn.example/b.png")
+		verifrt.Cover("srcset")
+	}
+	if verifrt.Choice("script", 2) == 1 {
+		els = append(els, c07El{"script", [][2]string{{"src", "js/app.js"}}})
+		want("script", "js/app.js")
+		verifrt.Cover("relative-script")
+	}
+	switch verifrt.Choice("link", 3) {
+	case 1:
+		els = append(els, c07El{"link", [][2]string{{"rel", "stylesheet"}, {"href", "http://cdn.example/s.css"}}})
+		want("link", "http://cdn.example/s.css")
+	case 2:
+		els = append(els, c07El{"link", [][2]string{{"rel", "alternate"}, {"href", "http://site.example/feed.xml"}}})
+		if cfg.CaptureAlternatePages {
+			want("link", "http://site.example/feed.xml")
+		}
+		verifrt.Cover("alternate")
+	}
+	wantOut := ""
+	if verifrt.Choice("anchor", 2) == 1 {
+		els = append(els, c07El{"a", [][2]string{{"href", "../next.html"}}})
+		wantOut = "http://site.example/next.html"
+	}
+	c07Check(cfg, disabled, els, wantAssets, wantOut)
+}
+
+// VerifH_C07_media: the same for the media elements - video/audio src, source src/srcset - alone and together, under
+// every --disable-html-tag setting (each tag is switched off by its own name only).
+func VerifH_C07_media() {
+	cfg := &config.Config{}
+	disabled := c07Disabled[verifrt.Choice("disable-html-tag", len(c07Disabled))]
+	cfg.DisableHTMLTag = disabled
+	config.VerifSet(cfg)
+	var els []c07El
+	var wantAssets []string
+	want := func(tag, u string) {
+		if !c07In(disabled, tag) {
+			wantAssets = append(wantAssets, u)
+		}
+	}
+	if verifrt.Choice("video", 2) == 1 {
+		els = append(els, c07El{"video", [][2]string{{"src", "http://cdn.example/v.mp4"}}})
+		want("video", "http://cdn.example/v.mp4")
+	}
+	if verifrt.Choice("audio", 2) == 1 {
+		els = append(els, c07El{"audio", [][2]string{{"src", "http://cdn.example/s.mp3"}}})
+		want("audio", "http://cdn.example/s.mp3")
+		verifrt.Cover("audio")
+	}
+	switch verifrt.Choice("source", 3) {
+	case 1:
+		els = append(els, c07El{"source", [][2]string{{"src", "http://cdn.example/t.webm"}}})
+		want("source", "http://cdn.example/t.webm")
+	case 2:
+		els = append(els, c07El{"source", [][2]string{{"srcset", "http://cdn.example/l.jpg 800w, /m.jpg 400w"}}})
+		want("source", "http://cdn.example/l.jpg")
+		want("source", "/m.jpg")
+		verifrt.Cover("source-srcset")
+	}
+	wantOut := ""
+	if verifrt.Choice("anchor", 2) == 1 {
+		els = append(els, c07El{"a", [][2]string{{"href", "../next.html"}}})
+		wantOut = "http://site.example/next.html"
+	}
+	c07Check(cfg, disabled, els, wantAssets, wantOut)
 }
